@@ -266,11 +266,11 @@ Ltac pre_leaf :=
 Theorem gen_call_preamble_is_model q : gen_call_preamble q = call_preamble q.
 Proof.
   destruct q as [pi md vr].
-  unfold gen_call_preamble, call_preamble, path_and_subpath, vroot_part, md_get, as_url_decode_error,
+  unfold gen_call_preamble, call_preamble, path_and_subpath, vroot_part, md_get, omval_or, as_url_decode_error,
          vroot_idx_off, vroot_idx_absent, slash_text, slash.
   cbn [q_path_info q_matchdict q_vroot].
   destruct md as [[tr sp]|]; cbn [md_traverse md_subpath].
-  - destruct tr as [[[|c t]|[|x l]]|]; destruct sp as [[s|l']|]; destruct vr as [raw|]; pre_leaf;
+  - destruct tr as [[[|c t]|[|x l]]|]; destruct sp as [[[|c' s]|[|x' l']]|]; destruct vr as [raw|]; pre_leaf;
       try (destruct (decode_path_info raw) as [d|[]|]; pre_leaf).
   - destruct pi as [raw0|]; destruct vr as [raw|]; pre_leaf;
       try (destruct (decode_path_info raw0) as [[|c0 d0]|[]|]; pre_leaf);
@@ -511,4 +511,46 @@ Theorem gen_call_obj_history o qs :
 Proof.
   rewrite obj_history_free. f_equal. apply map_ext. intros q. cbn [obj_call o_root fst].
   symmetry. apply gen_call_is_model.
+Qed.
+
+(* ------------------------------------------------------------ completeness of the normaliser *)
+(* nothing but '', '.' and '..' is special: every list of other '/'-free segments survives joining and splitting
+   unchanged -- in particular names made of three or more dots, names that start or end with dots, '@' names *)
+Theorem gen_split_keeps_names segs :
+  Forall normal_seg segs -> gen_split_path_info (join [slash] segs) = segs.
+Proof. rewrite gen_split_path_info_is_model. apply spi_normal_id. Qed.
+
+Theorem gen_split_keeps_names_abs segs :
+  Forall normal_seg segs -> gen_split_path_info (slash :: join [slash] segs) = segs.
+Proof.
+  intros H. rewrite gen_split_path_info_is_model.
+  change (slash :: join [slash] segs) with ([slash] ++ join [slash] segs).
+  rewrite <- (spi_normal_id segs H) at 2.
+  rewrite !spi_no_strip. change ([slash] ++ join [slash] segs) with (slash :: join [slash] segs).
+  rewrite split_on_cons_sep, resolve_empty_seg. reflexivity.
+Qed.
+
+Theorem gen_split_keeps_names_both segs :
+  Forall normal_seg segs ->
+  gen_split_path_info (join [slash] segs) = segs /\ gen_split_path_info (slash :: join [slash] segs) = segs.
+Proof. intros H. split; [exact (gen_split_keeps_names segs H)|exact (gen_split_keeps_names_abs segs H)]. Qed.
+
+Example dots_only_names_survive :
+  normal_segb [46; 46; 46]%N = true /\ normal_segb [46; 46; 46; 46]%N = true /\ normal_segb [46; 97]%N = true /\
+  normal_segb [64]%N = true /\
+  gen_split_path_info [47; 97; 47; 46; 46; 46; 47; 98; 47; 46; 46; 46; 46; 47]%N
+  = [[97]; [46; 46; 46]; [98]; [46; 46; 46; 46]]%N.
+Proof. vm_compute. repeat split. Qed.
+
+(* ------------------------------------------------------------ the public normalisers meet the normalisation clause *)
+Theorem gen_normalisers_meet_spec p l :
+  (spec_traversal_path_info p = Some l -> gen_traversal_path_info p = Ok l) /\
+  (spec_traversal_path p = Some l -> gen_traversal_path p = Ok l).
+Proof.
+  rewrite gen_traversal_path_info_is_model, gen_traversal_path_is_model.
+  unfold spec_traversal_path, spec_traversal_path_info, traversal_path, traversal_path_info.
+  split.
+  - destruct (decode_path_info p) as [d|e|]; intros H; inversion H; reflexivity.
+  - destruct (is_ascii p); [|discriminate].
+    destruct (decode_path_info (Percent.unquote p)) as [d|e|]; intros H; inversion H; reflexivity.
 Qed.
